@@ -25,8 +25,9 @@ LEVEL = ('decides: a solution handed out is the snapshot taken while the solver 
          '(S16). Also runs the KERNEL BUNDLE (rule ids …K<n>): the kernel rules every verdict depends '
          'on — predicate algebra, nogood watchers, minimisers, conflict-analysis tables, nogood '
          'deletion, decision read-back, no-learning resolver, constraint builders, reified reasons — '
-         'wherever they are not already registered here under another id. Does not decide that any '
-         'propagator detects every violation once its variables are fixed')
+         'wherever they are not already registered here under another id. backtrack resets the '
+         'notification cursor of the trail (S17). Does not decide that any propagator detects every '
+         'violation once its variables are fixed')
 TECHNIQUE = "static analysis: must-pass / dominance / paired-set / override⇒declare / table rules over rustc MIR"
 
 
